@@ -15,6 +15,9 @@ func init() {
 	register(&Rule{ID: "C16.R1", Prop: "C16", Floor: 9, Doc: "host: funded inputs are released on every failure exit (deferred release registered first, disarmed only after broadcast, transaction not shrunk)", Run: c16r1})
 	register(&Rule{ID: "C16.R2", Prop: "C16", Floor: 3, Doc: "renter: every non-success return after funding is preceded by ReleaseInputs", Run: c16r2})
 	register(&Rule{ID: "C16.R4", Prop: "C16", Floor: 10, Doc: "a transaction set always travels with the basis it was produced for", Run: c16r4})
+	register(&Rule{ID: "C16.R5", Prop: "C16", Floor: 12, Doc: "renter: formation, renewal and refresh report success only after the host's signatures were verified over the locally built contract / renewal and the returned set was checked (the guard table of C10.R1 for these three)", Run: func(c *Ctx) {
+		c10guards(c, map[string]bool{"RPCFormContract": true, "RPCRenewContract": true, "rpcRefreshContract": true})
+	}})
 	register(&Rule{ID: "C16.R3", Prop: "C16", Floor: 3, Doc: "contract recorded only after the full set was accepted by the pool; broadcast after recording", Run: c16r3})
 }
 
